@@ -104,6 +104,23 @@ func viewsAgree(pos *board.Position, want *ref.Pos) string {
 			if got, exp := pos.IsAttacked(c, bridge.Sq(s)), want.Attacked(int(s), c == board.Black); got != exp {
 				return fmt.Sprintf("IsAttacked(%v,%v)=%v, rules say %v", c, bridge.Sq(s), got, exp)
 			}
+			// the attack query per kind of piece is one more view: it must agree with the squares
+			var kinds [7]bool
+			for _, a := range want.Attackers(int(s), c == board.Black) {
+				k := want.Sq[a]
+				if k < 0 {
+					k = -k
+				}
+				kinds[k] = true
+			}
+			for _, pc := range board.AllPieces {
+				if got := pos.IsAttackedBy(c, bridge.Sq(s), []board.Piece{pc}); got != kinds[bridge.RefPiece(pc)] {
+					return fmt.Sprintf("IsAttackedBy(%v,%v,[%v])=%v, the squares say %v", c, bridge.Sq(s), pc, got, kinds[bridge.RefPiece(pc)])
+				}
+			}
+			if got, exp := pos.IsAttackedBy(c, bridge.Sq(s), board.KingQueen), kinds[ref.K] || kinds[ref.Q]; got != exp {
+				return fmt.Sprintf("IsAttackedBy(%v,%v,KingQueen)=%v, the squares say %v", c, bridge.Sq(s), got, exp)
+			}
 		}
 		if k := want.KingSq(c == board.White); k >= 0 {
 			if pos.KingSquare(c) != bridge.Sq(int8(k)) {
@@ -224,7 +241,7 @@ func oddViews(f string, report func(where, msg string)) {
 
 func checkC02(c *harness.Check) {
 	mustAnchors(c)
-	c.Rule = "every (node, legal move) of the C01 spaces (BFS closures, chains arise because every node was produced by the implementation's own Move; plus systematic families): successor placement/rights/e.p. vs reference Make; square lookup vs per-piece/per-colour/occupancy/rotated views; IsAttacked for 2x64 squares and IsChecked vs reference ray walk; FEN of successor; parent value unchanged. distinct_nontrivial = distinct (move kind, rights-before, rights-after, e.p.-set) classes"
+	c.Rule = "every (node, legal move) of the C01 spaces (BFS closures, chains arise because every node was produced by the implementation's own Move; plus systematic families): successor placement/rights/e.p. vs reference Make; square lookup vs per-piece/per-colour/occupancy/rotated views; IsAttacked and IsAttackedBy (every single kind of piece, KingQueen) for 2x64 squares and IsChecked vs reference ray walk; FEN of successor; parent value unchanged. distinct_nontrivial = distinct (move kind, rights-before, rights-after, e.p.-set) classes"
 	edge := func(n *Node, m board.Move, rm ref.Move, succ *Node) {
 		c.Evaluations.Add(1)
 		before := *n.Pos
